@@ -35,6 +35,10 @@ SLOTS = [
     ("v21-x509-validity_not_before", "v21", "X509Certificate", {}, "validity_not_before", "any", "exact"),
     ("v21-pe-time_date_stamp", "v21", "WindowsPEBinaryExt", {"pe_type": "exe"}, "time_date_stamp", "second", "exact"),
     ("v20-pe-time_date_stamp", "v20", "WindowsPEBinaryExt", {"pe_type": "exe"}, "time_date_stamp", "second", "exact"),
+    # a date / datetime kept as the value of a custom property: no slot cleans it, the JSON encoder writes it as a timestamp
+    # (an untagged value with precision "any"; a tagged STIXdatetime with its own tags)
+    ("v21-identity-custom-value", "v21", "Identity", {"name": "x", "allow_custom": True}, "x_when", "any", "exact"),
+    ("v20-identity-custom-value", "v20", "Identity", {"name": "x", "identity_class": "individual", "allow_custom": True}, "x_when", "any", "exact"),
 ]
 
 
@@ -125,6 +129,13 @@ def check_case(case):
         cls = getattr(_mod(ver), clsname)
         kw = dict(base)
         tag = case.get("stixdt_tags")
+        if prop == "x_when":
+            if case["form"] == "string":
+                return None         # text in a custom property is text, not a timestamp the library writes
+            if tag and tag[1] == "other":
+                tag = [tag[0], "min"]
+            if tag and isinstance(val, dt.datetime):
+                prec, cons = (prec if tag[0] == "same" else tag[0]), (cons if tag[1] == "same" else tag[1])     # nobody re-cleans: own tags
         if tag and isinstance(val, dt.datetime):
             # an un-normalised STIXdatetime carrying precision tags (e.g. another property's value): the slot must re-clean it
             tp = prec if tag[0] == "same" else tag[0]
@@ -135,7 +146,10 @@ def check_case(case):
         if exc is not None:
             return [("accepted-input-refused", "%s(%s=%r) raised %s" % (clsname, prop, val, core.fmt_exc(exc)))]
         import json
-        out = json.loads(obj.serialize())[prop]
+        text, exc = core.guarded(obj.serialize)
+        if exc is not None:
+            return [("crash:serialize", "%s(%s=%r).serialize() raised %s" % (clsname, prop, val, core.fmt_exc(exc)))]
+        out = json.loads(text)[prop]
         parsed = obj[prop]
     exp = tsref.fmt(tsref.truncate(t, prec, cons), prec, cons)
     if out != exp:
